@@ -27,7 +27,7 @@ META = dict(
                 "symbols (PauliSum built by the harness independently of openfermion) and mapped back to solver variables, "
                 "coefficient equality per term decided by the solver.",
     bounds=dict(quick="IonQ: 20 gate names, all placements on 3 qubits x 3 width modes, 8x12 seeded sequences; ProjectQ: 12 gate kinds x "
-                      "qubits 0..11 x 11 literals, 6x12 sequences; repr: 27 gate kinds x placements x 13 parameters; operators: "
+                      "qubits 0..11 x 11 literals, 6x12 sequences; repr: 27 gate kinds x placements x 16 parameters (zero, negative zero and integer zero included); operators: "
                       "64 words single-term + 24 seeded 2-3 term operators (concrete), 12 symbolic import operators",
                 thorough="IonQ: same singles + all 138x138 ordered pairs of gate placements on 3 qubits + 40x12 sequences of length 3; ProjectQ: 40x12 sequences; "
                          "operators: all 64 single words x 6 coefficients, 200 seeded 2-3 term operators, 64+60 symbolic import operators"),
@@ -267,7 +267,7 @@ def h_pq_multicontrol(env):
 
 
 # ---------------------------------------------------------------- (3) repr / eval
-REPR_PARAMS = [0.3, -0.7, 1e-05, -2.5e-07, 2.0, 3, 123456.789, 3.141592653589793, 0.1 + 0.2, 1e+22, "theta", "p 0", "a_1"]
+REPR_PARAMS = [0.0, -0.0, 0, 0.3, -0.7, 1e-05, -2.5e-07, 2.0, 3, 123456.789, 3.141592653589793, 0.1 + 0.2, 1e+22, "theta", "p 0", "a_1"]
 REPR_KINDS = ([(n, "1q") for n in ["H", "X", "Y", "Z", "S", "T", "MEASURE", "SDAG"]] +
               [(n, "1qp") for n in ["RX", "RY", "RZ", "PHASE"]] +
               [(n, "c") for n in ["CNOT", "CX", "CY", "CZ", "CH"]] +
